@@ -1,6 +1,7 @@
 # drives the REAL codec.py / trxd_proto.py with the line protocol of lean/OsmoVerif/Driver/Codec.lean
 #   codec.dec ENV hex | codec.enc ENV VALUE | codec.fdec FIELD VALUE hex | codec.fenc FIELD VALUE
-#   codec.pdu.dec NAME hex | codec.pdu.enc NAME VALUE
+#   codec.pdu.dec NAME hex | codec.pdu.enc NAME VALUE      (ONE object per PDU class lives through the whole stream)
+#   codec.pdu.fresh.dec / codec.pdu.fresh.enc              (the same on a newly created object)
 # answers: ok VALUE consumed | ok hex | err <exception class> | err HANG (no answer within the CPU-time limit)
 # argv: <toolkit dir>
 import os, signal, sys
@@ -78,6 +79,16 @@ def handle(tok):
         v, i = cd.parse_val(tok, i)
         obj = build(lambda: cd.build_field(codec, f))
         return "ok " + cd.hx(guarded(lambda: obj.to_bytes(v)))
+    if verb.startswith("codec.pdu.fresh."):
+        # the same request on a newly created object of a newly loaded definition module (the field objects of a
+        # STRUCT are class attributes shared by all objects of the class): reference for history independence
+        import importlib, trxd_proto
+        importlib.reload(trxd_proto)
+        _PDU.pop(tok[1], None)
+        try:
+            return handle(["codec.pdu." + verb[len("codec.pdu.fresh."):]] + tok[1:])
+        finally:
+            _PDU.pop(tok[1], None)
     if verb == "codec.pdu.dec":
         obj = pdu(tok[1])
         n = guarded(lambda: obj.from_bytes(cd.unhx(tok[2])))
